@@ -25,7 +25,7 @@ def run(ctx):
         "ordering-selected invariant. Not decided: overflow of pow/exp for extreme parameters; n_grains up to 1e5 (memory/time).")
     ctx.trusted += ["NumPy/Numba reference semantics over the reals", "Numba raises ZeroDivisionError on scalar float division by zero (error_model='python')"]
     ctx.assume("deformation_exponent n > 0 (documented physical range [2,5])")
-    for r in ("skew", "conserve", "dead", "linear", "meanfield", "div-guard", "noslip-branch"):
+    for r in ("skew", "conserve", "dead", "linear", "meanfield", "div-guard", "noslip-branch", "exit-paths"):
         ctx.rule("C03." + r, RULES[r])
     loc = defloc(ctx, "pydrex.core.derivatives")
     Ns = (2,) if ctx.tier == "quick" else (1, 2, 3)
@@ -43,10 +43,13 @@ def run(ctx):
                     form_properties(ctx, tag, inp, dA, df, loc)
                     if N == Ns[0]:
                         guards(ctx, fabric, regime, perm, I, loc, inp)
+                    if N == Ns[0] and perm == drex.orderings(fabric)[0]:
+                        exit_paths(ctx, fabric, regime, perm, N, I, loc)
     n_cases = 2 * (5 * 6 + 1) * len(Ns)
     ctx.floor("C03.skew", n_cases)
     ctx.floor("C03.conserve", n_cases)
     ctx.floor("C03.div-guard", 2 * 31 * 4)
+    ctx.floor("C03.exit-paths", 60)
 
 
 RULES = {
@@ -57,8 +60,35 @@ RULES = {
     "meanfield": "df_g == phi·M*·f_g·R_g with R_g - R_h independent of f for all g,h",
     "div-guard": "each division site reachable from derivatives: denominator is a non-zero constant / CRSS cell / positive parameter, or a "
                  "dominating guard excludes zero; an ordering-selected denominator needs 'not all ordering keys zero' to be implied by a dominating guard",
+    "exit-paths": "skew, conserve and dead also hold on the paths through each data-dependent early exit of the rate computation (forced for the first grain only, and for every grain)",
     "noslip-branch": "the branch taken when no slip can be resolved returns a rate of the form orientation·S with S skew (zero included) and a constant energy",
 }
+
+
+def exit_paths(ctx, fabric, regime, perm, N, generic, loc):
+    """The invariants of the generic path must also hold when a data-dependent early exit on the rate path is taken: each exit location met
+    on the generic path is forced for its first occurrence only (one grain leaves early, the others do not) and for every occurrence."""
+    from ..values import Unsupported
+    locs = []
+    for gi, gl, occ in generic.exit_ids:
+        g_, outcome_, _, _ = generic.guards[gi]
+        if outcome_[0] != "raise" and gl not in locs:
+            locs.append(gl)
+    for gl in locs:
+        for occ in (0, "*"):
+            tag = f"{fabric}:{regime}:order={perm}:N={N}:early exit at {gl.split('/')[-1]} taken {'by the first grain' if occ == 0 else 'by every grain'}"
+            try:
+                I, inp, out = drex.extract(ctx, fabric, regime, perm, N, setup=lambda I_: setattr(I_, "force_exit", (gl, occ)))
+            except RaiseSig as r:
+                ctx.ob("C03.exit-paths", tag, False, f"derivatives raises {r.exc.typename} when the exit is taken (line {getattr(r.exc.node, 'lineno', '?')})", gl)
+                continue
+            except (Unsupported, alg.AlgError, drex.AnalysisError) as ex:
+                ctx.ob("C03.exit-paths", tag, "inconclusive", f"outside the interpreted subset: {str(ex)[:120]}", gl)
+                continue
+            if I.forced is None:
+                continue
+            dA, df = out
+            form_properties(ctx, tag, inp, dA, df, gl, as_rule="C03.exit-paths")
 
 
 def shallow_derive(e, atom):
@@ -67,9 +97,17 @@ def shallow_derive(e, atom):
     return alg.derive(e, {atom: ONE}, memo)
 
 
-def form_properties(ctx, tag, inp, dA, df, loc):
+def form_properties(ctx, tag, inp, dA, df, loc, as_rule=None):
+    """as_rule: record skew / conserve / dead under that one rule (paths through forced early exits), skip the rules on the generic form"""
     N = inp.N
     A = inp.A
+    if as_rule is not None:
+        real_ctx = ctx
+
+        class _Sub:
+            def check(self, rule, tag_, fn, loc_):
+                return real_ctx.check(as_rule, f"{tag_}:{rule.split('.')[-1]}", fn, loc_)
+        ctx = _Sub()
 
     def skew():
         for g in range(N):
@@ -127,6 +165,8 @@ def form_properties(ctx, tag, inp, dA, df, loc):
                 return False, f"df[{g}] at f[{g}]=0 is {short(z)}"
         return True, ""
     ctx.check("C03.dead", tag, dead, loc)
+    if as_rule is not None:
+        return
 
     (Ma,) = alg.atoms_of(inp.M)
     (Pa,) = alg.atoms_of(inp.phi)
